@@ -106,12 +106,12 @@ def chomp_spec(format_spec, word):
 
 @target("pedal.core.formatting:FeedbackFieldWrapper.__format__")
 def FeedbackFieldWrapper__format__(self, format_spec):
-    requires(is_obj(self) and has_attr(self, 'value') and is_obj(self.formatter) and is_list(self.formatter.available)
+    requires(is_obj(self) and has_attr(self, '_wrapped_value') and is_obj(self._wrapped_formatter) and is_list(self._wrapped_formatter.available)
              and is_str(format_spec))
-    requires(forall(lambda j: is_str(item(self.formatter.available, j)) and len(item(self.formatter.available, j)) > 0,
-                    0, nitems(self.formatter.available)))
-    let(names=items(self.formatter.available))
-    abstract("getattr(self.formatter, formatter_name)", raises=None, label="formatter_method",
+    requires(forall(lambda j: is_str(item(self._wrapped_formatter.available, j)) and len(item(self._wrapped_formatter.available, j)) > 0,
+                    0, nitems(self._wrapped_formatter.available)))
+    let(names=items(self._wrapped_formatter.available))
+    abstract("getattr(self._wrapped_formatter, formatter_name)", raises=None, label="formatter_method",
              modifies=[ghost('formatted_value'), ghost('formatter_calls')],
              ensures=[eqv(ghost_val('formatted_value'), arg0), ghost('formatter_calls') == old(ghost('formatter_calls')) + 1,
                       is_str(result)])
@@ -123,7 +123,7 @@ def FeedbackFieldWrapper__format__(self, format_spec):
               and forall(lambda j: not format_spec.endswith(iterated[j]), 0, seen))
     ensures("formatter_gets_the_raw_value_once", implies(
         exists(lambda j: format_spec.endswith(names[j]), 0, seq_len(names)),
-        ghost('formatter_calls') == old(ghost('formatter_calls')) + 1 and eqv(ghost_val('formatted_value'), self.value)))
+        ghost('formatter_calls') == old(ghost('formatter_calls')) + 1 and eqv(ghost_val('formatted_value'), self._wrapped_value)))
     ensures("no_formatter_name_no_call", implies(
         not exists(lambda j: format_spec.endswith(names[j]), 0, seq_len(names)),
         ghost('formatter_calls') == old(ghost('formatter_calls')) and eqv(ghost_val('final_spec_value'), format_spec)))
